@@ -21,7 +21,24 @@ from .. import core
 from . import minieval
 from .minieval import ClassStub, Obj, Stub
 
-WEEKDAY = Stub(MONDAY=0, TUESDAY=1, WEDNESDAY=2, THURSDAY=3, FRIDAY=4, SATURDAY=5, SUNDAY=6)
+class WD(int):
+    """a member of the WeekDay IntEnum: equal to its number, but not the same object as a plain int (`x is 0` is false for it)"""
+
+    def __repr__(self):
+        return f"WeekDay({int(self)})"
+
+
+WEEKDAYS = [WD(i) for i in range(7)]
+
+
+def _weekday_member(v):
+    if isinstance(v, bool) or not isinstance(v, int) or not 0 <= v <= 6:
+        raise ValueError(f"{v!r} is not a valid WeekDay")
+    return WEEKDAYS[v]
+
+
+WEEKDAY = ClassStub(_new=_weekday_member, _isa=lambda v: isinstance(v, WD), MONDAY=WEEKDAYS[0], TUESDAY=WEEKDAYS[1], WEDNESDAY=WEEKDAYS[2], THURSDAY=WEEKDAYS[3],
+                    FRIDAY=WEEKDAYS[4], SATURDAY=WEEKDAYS[5], SUNDAY=WEEKDAYS[6])
 
 
 def _shift(d: _dt.date, years=0, months=0, weeks=0, days=0) -> _dt.date:
@@ -102,7 +119,7 @@ class World:
             return self.date(d)
         return Obj(_methods=self.meths if self.cls == "Date" else {}, _props=self.props if self.cls == "Date" else set(), _ctor=self.ctor,
                    _natives={}, _date=d, _mins=None, _eqkey=(d.toordinal(), 0), _types=(_dt.date,),
-                   year=d.year, month=d.month, day=d.day, day_of_week=d.weekday(), quarter=(d.month - 1) // 3 + 1,
+                   year=d.year, month=d.month, day=d.day, day_of_week=WEEKDAYS[d.weekday()], quarter=(d.month - 1) // 3 + 1,
                    days_in_month=_calendar.monthrange(d.year, d.month)[1],
                    set=set_, replace=set_, on=set_, add=add, subtract=subtract, start_of=start_of, format=lambda f, *a, **k: _format(d, f),
                    weekday=d.weekday, isoweekday=d.isoweekday, toordinal=d.toordinal)
@@ -163,7 +180,7 @@ class World:
         me = Obj(_methods=self.meths if self.cls == "DateTime" else {}, _props=self.props if self.cls == "DateTime" else set(), _ctor=self.ctor,
                  _natives={}, _date=d, _mins=mins, _sub=sub, _eqkey=(d.toordinal(), mins, sub), _types=(_dt.datetime,),
                  year=d.year, month=d.month, day=d.day, hour=mins // 60, minute=mins % 60, second=sub[0], microsecond=sub[1], fold=fold,
-                 day_of_week=d.weekday(), quarter=(d.month - 1) // 3 + 1, days_in_month=_calendar.monthrange(d.year, d.month)[1],
+                 day_of_week=WEEKDAYS[d.weekday()], quarter=(d.month - 1) // 3 + 1, days_in_month=_calendar.monthrange(d.year, d.month)[1],
                  tz=self.tz, tzinfo=self.tz, timezone=self.tz, timezone_name="Scenario/Zone",
                  set=set_, replace=replace, on=on, at=at, add=add, subtract=subtract, start_of=start_of, utcoffset=utcoffset,
                  date=lambda: w.date(d), format=lambda f, *a, **k: _format(d, f), weekday=d.weekday, isoweekday=d.isoweekday,
